@@ -223,19 +223,28 @@ func (ck *Check) resultNonNegative(c *ssa.Call, idx int, seen map[ssa.Value]bool
 	if b, ok := c.Call.Value.(*ssa.Builtin); ok {
 		return b.Name() == "len" || b.Name() == "cap"
 	}
-	f := c.Call.StaticCallee()
-	if f == nil || f.Blocks == nil || !ck.P.inRepo(f) {
-		return false
+	// the callee, or — for a call of a function value — every function the value can be
+	fs := []*ssa.Function{c.Call.StaticCallee()}
+	if fs[0] == nil {
+		fs = ck.P.calleesOf(c)
+		if len(fs) == 0 {
+			return false
+		}
 	}
 	found := false
-	for _, b := range f.Blocks {
-		r, ok := b.Instrs[len(b.Instrs)-1].(*ssa.Return)
-		if !ok || idx >= len(r.Results) {
-			continue
-		}
-		found = true
-		if !ck.nonNegative(r.Results[idx], seen, depth+1) {
+	for _, f := range fs {
+		if f == nil || f.Blocks == nil || !ck.P.inRepo(f) {
 			return false
+		}
+		for _, b := range f.Blocks {
+			r, ok := b.Instrs[len(b.Instrs)-1].(*ssa.Return)
+			if !ok || idx >= len(r.Results) {
+				continue
+			}
+			found = true
+			if !ck.nonNegative(r.Results[idx], seen, depth+1) {
+				return false
+			}
 		}
 	}
 	return found
@@ -365,6 +374,23 @@ func (ck *Check) libraryPreconditions(rule string, fns []*ssa.Function) {
 					}
 					ck.cond(okAll, rule, key, pos, funcID(fn), "WithLabelValues passes as many values as the vector has label names",
 						strings.Join(found, "; "), "prometheus panics with 'inconsistent label cardinality' when the scan reaches this call")
+				case (f.Name() == "As") && (pkgPathOfFn(f) == "errors" || pkgPathOfFn(f) == "github.com/pkg/errors") && len(cc.Args) == 2:
+					// errors.As panics unless target is a non-nil pointer to an interface type or to a
+					// type implementing error
+					counts["errors-as"]++
+					okT, got := false, cc.Args[1].String()
+					if mi, isMI := cc.Args[1].(*ssa.MakeInterface); isMI {
+						got = mi.X.Type().String()
+						if pt, isPtr := mi.X.Type().Underlying().(*types.Pointer); isPtr {
+							et := pt.Elem()
+							if _, isIface := et.Underlying().(*types.Interface); isIface {
+								okT = true
+							} else if errT, _ := types.Universe.Lookup("error").Type().Underlying().(*types.Interface); errT != nil && types.Implements(et, errT) {
+								okT = true
+							}
+						}
+					}
+					ck.cond(okT, rule, mk("errors-as"), pos, funcID(fn), "errors.As is given a pointer to an interface type or to a type that implements error", got, "errors.As panics (\"target must be interface or implement error\") as soon as the examined error is non-nil")
 				case full == "time.NewTicker" || full == "time.Tick":
 					counts["ticker"]++
 					k, ok := cc.Args[0].(*ssa.Const)
